@@ -1,5 +1,5 @@
 from .. import facts
-from ..rules import algebra, opacity
+from ..rules import image, algebra, opacity
 
 
 def run(ck):
@@ -8,3 +8,4 @@ def run(ck):
     algebra.r9_operator_table(ck, P)
     opacity.r2_opacity_flags(ck, P)
     opacity.r3_mask_elision(ck, P)
+    image.r_validated_before_use(ck, P, 'C09-R4')
